@@ -153,6 +153,102 @@ func ruleCompletionConsume(c *Ctx, r *R) {
 			}
 		}
 	}
+	// decisions written out in the evaluator itself (the helper inlined): the completion record is taken out of the
+	// Value with an assertion to `result` and its kind compared with the constants. The kinds compared are the kinds
+	// that can be consumed there: a loop must look at break and continue, a switch / block at break only.
+	for _, fn := range c.AllSrcFuncs("") {
+		owner := fn
+		for owner.Parent() != nil {
+			owner = owner.Parent()
+		}
+		stmtParam, isLoop := false, false
+		for _, p := range owner.Params {
+			if nt := derefNamed(p.Type()); nt != nil && nt.Obj().Pkg() != nil && nt.Obj().Pkg().Path() == ottoPath &&
+				strings.HasPrefix(nt.Obj().Name(), "node") && strings.HasSuffix(nt.Obj().Name(), "Statement") {
+				stmtParam = true
+			}
+			for _, ln := range loopNodes {
+				if typeIs(p.Type(), ottoPath, ln) {
+					isLoop = true
+				}
+			}
+		}
+		if !stmtParam {
+			continue
+		}
+		ord := 0
+		for _, b := range fn.Blocks {
+			for _, ins := range b.Instrs {
+				ta, ok := ins.(*ssa.TypeAssert)
+				if !ok || !types.Identical(ta.AssertedType, tResult) || valueOfPayload(ta.X) == nil {
+					continue
+				}
+				var rec ssa.Value = ta
+				if ta.CommaOk {
+					rec = nil
+					for _, ref := range *ta.Referrers() {
+						if ex, ok := ref.(*ssa.Extract); ok && ex.Index == 0 {
+							rec = ex
+						}
+					}
+				}
+				if rec == nil {
+					continue
+				}
+				compared := map[string]bool{}
+				// reads of the kind field: directly, or through the local the record is kept in
+				var kindReads []ssa.Value
+				for _, ref := range *rec.Referrers() {
+					switch y := ref.(type) {
+					case *ssa.Field:
+						if y.Field == rKind {
+							kindReads = append(kindReads, y)
+						}
+					case *ssa.Store:
+						if al, ok := y.Addr.(*ssa.Alloc); ok && y.Val == rec {
+							for _, r2 := range *al.Referrers() {
+								if fa, ok := r2.(*ssa.FieldAddr); ok && fa.Field == rKind {
+									for _, r3 := range *fa.Referrers() {
+										if ld, ok := r3.(*ssa.UnOp); ok && ld.Op == token.MUL {
+											kindReads = append(kindReads, ld)
+										}
+									}
+								}
+							}
+						}
+					}
+				}
+				for _, fl := range kindReads {
+					for _, r2 := range *fl.Referrers() {
+						if bo, ok := r2.(*ssa.BinOp); ok && (bo.Op == token.EQL || bo.Op == token.NEQ) {
+							for _, side := range []ssa.Value{bo.X, bo.Y} {
+								if k, isK := constInt(side); isK {
+									compared[kindName(k)] = true
+								}
+							}
+						}
+					}
+				}
+				if len(compared) == 0 {
+					continue
+				}
+				n++
+				ord++
+				key := fmt.Sprintf("%s:inline#%d", ssaFuncName(owner), ord)
+				site := c.Pos(instrPos(ta))
+				switch {
+				case !compared["resultBreak"]:
+					r.bad(key, site, fmt.Sprintf("%s looks at the kind of its completion (%v) but not for a `break` aimed at this statement", ssaFuncName(owner), sortedKeys(compared)))
+				case isLoop && !compared["resultContinue"]:
+					r.bad(key, site, fmt.Sprintf("%s evaluates an iteration statement but never tests its completion for `continue` (%v): `continue` would leave the loop", ssaFuncName(owner), sortedKeys(compared)))
+				case !isLoop && compared["resultContinue"]:
+					r.bad(key, site, fmt.Sprintf("%s evaluates a switch / block but tests its completion for `continue` (%v): a `continue` inside a switch (or a labelled block) inside a loop belongs to the loop (ES5 12.11)", ssaFuncName(owner), sortedKeys(compared)))
+				default:
+					r.ok(key, site, fmt.Sprintf("decided in place: kinds tested %v", sortedKeys(compared)))
+				}
+			}
+		}
+	}
 	if n < 6 {
 		r.undecided("unresolved:sites", "-", fmt.Sprintf("UNRESOLVED: %d completion decisions found (blocks, switch and four loops expected)", n))
 	}
@@ -386,7 +482,7 @@ func rulePlusToPrimitive(c *Ctx, r *R) {
 			seen[v] = true
 			switch x := v.(type) {
 			case *ssa.Call:
-				return x.Call.StaticCallee() != nil && x.Call.StaticCallee().Name() == "toPrimitiveValue"
+				return toPrimitiveHint(&x.Call) == "none"
 			case *ssa.Phi:
 				for _, e := range x.Edges {
 					if !walk(e) {
@@ -410,7 +506,7 @@ func rulePlusToPrimitive(c *Ctx, r *R) {
 				continue
 			}
 			name := call.Call.StaticCallee().Name()
-			if name == "toPrimitiveValue" {
+			if toPrimitiveHint(&call.Call) == "none" {
 				prims++
 			}
 			if call.Call.StaticCallee().Signature.Recv() == nil || !typeIs(call.Call.StaticCallee().Signature.Recv().Type(), ottoPath, "Value") {
@@ -421,10 +517,10 @@ func rulePlusToPrimitive(c *Ctx, r *R) {
 			}
 			n++
 			r.check(fromToPrimitive(call.Call.Args[0]), fmt.Sprintf("plus:%s#%d", name, n), c.Pos(instrPos(call)), "applied to the result of ToPrimitive",
-				fmt.Sprintf("the `+` arm applies %s() to an operand that did not go through toPrimitiveValue: the conversion then runs with hint String / Number instead of no hint (`\"x\" + {valueOf: function(){ return 42 }}` gives \"x[object Object]\" instead of \"x42\")", name))
+				fmt.Sprintf("the `+` arm applies %s() to an operand that did not go through ToPrimitive without a hint: the conversion then runs with hint String / Number instead of no hint (`\"x\" + {valueOf: function(){ return 42 }}` gives \"x[object Object]\" instead of \"x42\")", name))
 		}
 	}
-	r.check(prims >= 2, "plus:both-operands", c.Pos(fn.Pos()), "both operands are converted with ToPrimitive", fmt.Sprintf("the `+` arm calls toPrimitiveValue %d time(s): ES5 11.6.1 converts both operands", prims))
+	r.check(prims >= 2, "plus:both-operands", c.Pos(fn.Pos()), "both operands are converted with ToPrimitive", fmt.Sprintf("the `+` arm calls ToPrimitive without a hint %d time(s): ES5 11.6.1 converts both operands", prims))
 	if n == 0 {
 		r.undecided("unresolved:conversions", c.Pos(fn.Pos()), "UNRESOLVED: no conversion call in the `+` arm")
 	}
